@@ -35,6 +35,7 @@ Oracle :
                   (never-late is not judged there: which clock a macro body has is open, and every candidate is younger)
   Wait            per execution of the Wait (main thread once; macro bodies per call; Alarm bodies per firing):
                   successor starts >= d s after the Wait was reported started (engine time)     -> wait-early
+                  successor begins executing >= d s after the Wait began executing              -> wait-early:from-execution-start
                   (wait-early:repeated-execution / wait-late:repeated-execution for the 2nd.. execution of a Wait line)
                   and, when no pause/hold intervened and the successor is the next line and has no threshold,
                   <= d + one tick after the tick the Wait began executing                       -> wait-late
@@ -53,7 +54,8 @@ TECHNIQUE = ("Hypothesis-generated programs x pause/hold schedules x totaliser t
              "(never early) and one metamorphic twin run per thresholded line with that threshold zeroed (never late)")
 RULE = ("Hypothesis draws a program (<=2 block levels quick / 3 thorough, Watches beside the main thread) with thresholds in the "
         "Base unit in force (s/min/h/L/mL) on main-thread lines, Wait lines, 0-4 user Pause/Hold windows, a piecewise-constant "
-        "totaliser flow and the tick at which Watch/Alarm conditions become true; 40% of the programs define a macro with Waits and "
+        "totaliser flow and the tick at which Watch/Alarm conditions become true; 40% of the cases add 1-2 directed Pause/Hold "
+        "requests at offsets -2..+2 around the tick a Wait line is entered, released 3-15 ticks later; 40% of the programs define a macro with Waits and "
         "thresholded lines and call it repeatedly (half of them: call, Base change, call again, the second call in a fresh "
         "Block half the time); Alarms re-fire. Non-trivial = at least "
         "one threshold was binding (the line started >=1 tick later than in its twin with the threshold zeroed) or one Wait of "
@@ -68,6 +70,9 @@ ASSUMPTIONS = [
     "tick the Wait was first reported started, not later than d + one tick after the tick it began executing (one tick "
     "later); the narrower readings are counted as classes wait:late-vs-reported-start / wait:early-vs-execution-start",
     "the Wait upper bound is asserted only when no tick of the window began Paused/Holding (Wait counts engine time)",
+    "the Wait lower bound must hold on both public reports of 'started': from the tick the Wait line was reported started to "
+    "the tick its successor was (method state), and from the tick the Wait began executing to the tick its successor did (run "
+    "log Started state = next interpreter tick after the entry); engine time, which includes pauses/holds during the Wait",
     "Base: CV is not covered (the harness unit registers no column volume)",
     "a new execution of a line (macro call, Alarm firing) is seen in get_method_state(): the line was not reported after the "
     "previous tick, or was reported executed and is now reported started again",
@@ -113,7 +118,11 @@ def analyse(case):
 
     lines = H.render(case["tree"])
     by_id = {l.id: l for l in lines}
-    r = H.run(case)
+    sched = H.resolved_sched(case)            # user requests incl. the directed ones, as absolute ticks
+    ctx_case = dict(case, sched=sched)
+    if case.get("rel"):
+        cls.add("directed-pause/hold-around-a-wait-entry")
+    r = H.run(case, sched=sched)
     if r.raised is not None:
         cls.add("not-judged:tick-raised")      # C13's subject
         return out, info
@@ -239,13 +248,13 @@ def analyse(case):
                     sig = "early:%s:after-same-named-inner-block" % unit
                 viol(sig, "%r (Base %s, %s) started at tick %d when its scope clock had at most %s %s of %s (scope began at tick %d)%s"
                      % (l.text.strip(), unit, "block level %d" % nest if nest else "program scope", n_s, float(reached),
-                        "s" if is_time else "L", float(thr), b, _ctx(case, lines)))
+                        "s" if is_time else "L", float(thr), b, _ctx(ctx_case, lines)))
         # never late: metamorphic twin
         if b is None:
             continue          # the scope never began: the line was never reachable
         horizon = n_ticks - 1
         twin_tree = H.with_threshold_zeroed(case["tree"], l.id)
-        tw = H.run(case, tree=twin_tree, until_started=l.id, max_ticks=(n_s if n_s is not None else horizon))
+        tw = H.run(case, tree=twin_tree, until_started=l.id, max_ticks=(n_s if n_s is not None else horizon), sched=sched)
         info["twins"] += 1
         n0 = tw.first_start.get(l.id)
         if tw.raised is not None or tw.error is not None:
@@ -314,21 +323,21 @@ def analyse(case):
                      "(Watch/Alarm scopes active: %s) had run that long%s"
                      % (l.text.strip(), unit, n0, b, float(count(lo_pre, b, n_should) * H.INTERVAL), float(thr), n_should,
                         "started at tick %d" % n_s if n_s is not None else "had not started by tick %d" % horizon,
-                        sorted(watch_iv.values(), key=lambda x: x[0]), _ctx(case, lines)))
+                        sorted(watch_iv.values(), key=lambda x: x[0]), _ctx(ctx_case, lines)))
                 continue
         if is_late:
             viol("late:%s:nest%d" % (unit, min(nest, 3)),
                  "%r (Base %s) could start at tick %d (twin with threshold 0) and its scope clock (began tick %d) had reached %s "
                  "at tick %d, but it %s%s" % (l.text.strip(), unit, n0, b, float(thr), n_float,
                                               "started at tick %d" % n_s if n_s is not None else "had not started by tick %d" % horizon,
-                                              _ctx(case, lines)))
+                                              _ctx(ctx_case, lines)))
         elif is_fb:
             viol("late:float-boundary",
                  "%r (Base %s): %d counted ticks of 0.1 s = %s s have elapsed in its scope at tick %d, but the line %s: a clock adding "
                  "the float 0.1 per tick reads %s < %s%s"
                  % (l.text.strip(), unit, count(lo_pre, b, n_exact), float(thr), n_exact,
                     "started at tick %d" % n_s if n_s is not None else "had not started",
-                    repr(_FSUM[count(lo_pre, b, n_exact)]), float(thr), _ctx(case, lines)))
+                    repr(_FSUM[count(lo_pre, b, n_exact)]), float(thr), _ctx(ctx_case, lines)))
             cls.add("float-boundary-threshold")
 
     # ---- thresholds in a macro body, per execution (never early only) ---------------------------------------------
@@ -381,7 +390,7 @@ def analyse(case):
                      "execution %d of macro line %r (called by %r, Base %s in force, %s) started at tick %d when that clock had at "
                      "most %s %s of %s (scope began at tick %d)%s"
                      % (k + 1, l.text.strip(), call.text.strip(), unit, "block level %d" % nest if nest else "program scope", n_s,
-                        float(reached), "s" if is_time else "L", float(thr), b, _ctx(case, lines)))
+                        float(reached), "s" if is_time else "L", float(thr), b, _ctx(ctx_case, lines)))
 
     # ---- Wait, per execution --------------------------------------------------------------------------------------
     for l in lines:
@@ -424,7 +433,23 @@ def analyse(case):
                     viol("wait-early" + rep_, "%sexecution %d of %r was reported started at tick %d (t=%.6f); its successor %r started "
                          "at tick %d, %.6f s later (< %s s)%s"
                          % ("" if not k else "(starts of the Wait: ticks %s) " % w_starts[:6], k + 1, l.text.strip(), t_s, T[t_s] - T[0],
-                            succ.text.strip(), n_s, el, df, _ctx(case, lines)))
+                            succ.text.strip(), n_s, el, df, _ctx(ctx_case, lines)))
+                # The same bound on the other public report of "started", the run log's Started state = the tick the
+                # instruction began executing (one interpreter tick after its line was entered), for the Wait and for its
+                # successor alike.  Without a pause/hold in between this is the bound above shifted by one tick; with one, a
+                # freeze that lies before the Wait began executing is not part of the Wait.
+                e_w = next((j for j in range(t_s + 1, n_ticks) if interp[j]), None)
+                e_s = next((j for j in range(n_s + 1, n_ticks) if interp[j]), None)
+                if e_w is not None and e_s is not None:
+                    if any(not interp[j] for j in range(t_s + 1, e_w + 1)):
+                        cls.add("wait:pause-or-hold-between-entry-and-execution")
+                    if T[e_s] - T[e_w] < df - EPS_T:
+                        viol("wait-early:from-execution-start" + rep_,
+                             "execution %d of %r: line entered at tick %d, began executing at tick %d (t=%.6f, first interpreter "
+                             "tick after the entry%s); its successor %r began executing at tick %d, %.6f s later (< %s s)%s"
+                             % (k + 1, l.text.strip(), t_s, e_w, T[e_w] - T[0],
+                                "; the run was paused/held in between" if e_w > t_s + 1 else "", succ.text.strip(), e_s,
+                                T[e_s] - T[e_w], df, _ctx(ctx_case, lines)))
                 # narrower readings: counted, not judged
                 if el > df + 0.1 + EPS_T:
                     cls.add("wait:late-vs-reported-start:%s" % kind)
@@ -460,7 +485,7 @@ def analyse(case):
                      "its successor %r %s, later than %s s + one tick after that%s"
                      % (k + 1, l.text.strip(), t_s, t_s + 1, T[t_s + 1] - T[0], succ.text.strip(),
                         "started at tick %d (%.6f s after)" % (n_s, T[n_s] - T[t_s + 1]) if n_s is not None
-                        else "had not started by tick %d" % (n_ticks - 1), df, _ctx(case, lines)))
+                        else "had not started by tick %d" % (n_ticks - 1), df, _ctx(ctx_case, lines)))
     cls.add("t0:%s" % case["t0"])
     return out, info
 
@@ -492,7 +517,7 @@ def run_shard(col, cfg):
             classes.append("has-wait>=1tick")
         col.count("twin-runs", info["twins"])
         col.record(case, nontrivial, classes=classes, violations=vs,
-                   sample={"method": [l.text for l in H.render(case["tree"])], "sched": case["sched"], "t0": case["t0"],
+                   sample={"method": [l.text for l in H.render(case["tree"])], "sched": case["sched"], "rel": case.get("rel", []), "t0": case["t0"],
                            "tot": case["tot"][:6]})
 
     # Hypothesis keeps generating (cheap but not free) examples after the budget ran out; the shard's share is therefore
